@@ -41,9 +41,10 @@ func costOf(v V) int64 { return 1 + (v>>8)%3 }
 // ---------------- stubs ----------------
 
 type simSecondary struct {
-	rd   *RunData
-	keys []K
-	vals []secEntry
+	rd      *RunData
+	keys    []K
+	vals    []secEntry
+	reenter func(k K) // CacheCfg.Reenter: the error handler calls back into the cache
 }
 
 type secEntry struct {
@@ -89,6 +90,12 @@ func (s *simSecondary) enter(op string) (fail bool) {
 
 var errSecondary = errors.New("injected secondary-store failure")
 
+// secSetError is what a failed secondary Set returns: it names the key, so that an error handler
+// can act on it.
+type secSetError struct{ key K }
+
+func (e *secSetError) Error() string { return errSecondary.Error() }
+
 //go:norace
 func (s *simSecondary) Get(key K) (value V, cost int64, expire int64, ok bool, err error) {
 	fail := s.enter("get")
@@ -115,7 +122,7 @@ func (s *simSecondary) Set(key K, value V, cost int64, expire int64) error {
 	if fail {
 		rec.Err = true
 		s.rd.Sec = append(s.rd.Sec, rec)
-		return errSecondary
+		return &secSetError{key}
 	}
 	if i := s.find(key); i >= 0 {
 		s.vals[i] = secEntry{value, cost, expire}
@@ -150,6 +157,12 @@ func (s *simSecondary) Delete(key K) error {
 func (s *simSecondary) HandleAsyncError(err error) {
 	if err != nil {
 		s.rd.AsyncErrs++
+	}
+	// an error handler may use the cache (purge or re-read the key that failed): it must not be
+	// called with any lock of the cache held
+	if e, ok := err.(*secSetError); ok && s.reenter != nil {
+		simrt.Fault("secondary.handler-reenters-cache")
+		s.reenter(e.key)
 	}
 }
 
@@ -327,6 +340,9 @@ func buildCacheCfg(rd *RunData, c CacheCfg) (*cacheAPI, error) {
 			return nil, err
 		}
 		api.secondary = sec
+		if c.Reenter {
+			sec.reenter = func(k K) { _, _, _ = ch.Get(k) }
+		}
 		api.store = theine.VerifHybridStore(ch)
 		api.get = ch.Get
 		api.set = ch.SetWithTTL
@@ -340,6 +356,9 @@ func buildCacheCfg(rd *RunData, c CacheCfg) (*cacheAPI, error) {
 			return nil, err
 		}
 		api.secondary = sec
+		if c.Reenter {
+			sec.reenter = func(k K) { _ = ch.Delete(k) }
+		}
 		api.store = theine.VerifHybridLoadingStore(ch)
 		api.get = func(k K) (V, bool, error) { v, err := ch.Get(bg, k); return v, err == nil, err }
 		api.set = ch.SetWithTTL
